@@ -187,7 +187,7 @@ Section TR.
 End TR.
 
 (* ---- the objective family used by the correspondence: f(x) = x.Ax/2 + b.x + sum c_i x_i^3 + sum d_i x_i^4,
-        hessian_vec optionally inconsistent (A+E), preconditioner kinds: 0 identity, 1 diagonal at the update point, 2 stale diagonal *)
+        hessian_vec optionally inconsistent (A+E), preconditioner kinds: 0 identity, 1 diagonal at the update point, 2 stale diagonal, 3 mismatched *)
 Section Poly.
   Context {T : Type} {NT : Num T}.
   Local Notation vec := (list T).
@@ -206,8 +206,9 @@ Section Poly.
     match m with [] => [] | row :: m' => nth i row nzero :: diag_of m' (Datatypes.S i) end.
   Definition pdiag (xp : vec) : vec :=       (* max(|H_ii(xp)|, 1/4) *)
     map (fun h => nmax (nabs h) quarter) (vadd (diag_of A O) (phess_diag_extra xp)).
+  (* kind 3: diagonal preconditioner but identity approximate Hessian (deliberately inconsistent oracles) *)
   Definition pprecond (xp v : vec) : vec :=
-    match pkind with O => v | Datatypes.S O => vdiv v (pdiag xp) | _ => vdiv v (pdiag x0) end.
+    match pkind with O => v | 1%nat => vdiv v (pdiag xp) | 2%nat => vdiv v (pdiag x0) | _ => vdiv v (pdiag xp) end.
   Definition pmult (xp v : vec) : vec :=
-    match pkind with O => v | Datatypes.S O => vmul v (pdiag xp) | _ => vmul v (pdiag x0) end.
+    match pkind with O => v | 1%nat => vmul v (pdiag xp) | 2%nat => vmul v (pdiag x0) | _ => v end.
 End Poly.
